@@ -71,6 +71,9 @@ def plan(rng, idx, tier):
     for i in range(nslots):
         r = rng.sub('slot', i)
         triples = gen_triples(r, r.randrange(6) if not r.chance(0.05) else 6 + r.randrange(10))
+        if idx % 150 == 75 and i == 0:
+            # a big operand (thresholds in the number of triples; many repeated triples come with it)
+            triples = gen_triples(r.sub('big'), r.sub('bign').pick([70, 260, 420]))
         top = None
         if r.chance(0.4):
             top = r.pick(VARS)
